@@ -90,6 +90,12 @@ def run(ctx):
         dtag = 'fresh'
         if rng.random() < 0.3:
             s, dtag = zoo.derive(rng, s, keep_channels=True)     # a sample in the middle of an analysis (sliced, copied, pickled ...)
+        if s.shape[0] and rng.random() < 0.25:
+            # values that went through arithmetic before the conversion (dithered / de-binned counts): fractional values
+            # inside the detector range follow the same law
+            s, atag = zoo.arith(rng, s)
+            dtag += '+' + atag
+            ctx.counters['chk:arith-derived'] += 1
         D = s.shape[1]
         plain = np.array(np.asarray(s))
         ncalls = 12
